@@ -97,6 +97,7 @@ type World struct {
 	GateHook func(t *Task, g GateInfo)
 
 	viol        *sim.Violation
+	Prop        string // property of the scenario being run
 	fakeSeconds float64
 	Abstract    map[string]bool
 }
